@@ -62,6 +62,9 @@ def pow_forward(a:np.ndarray, n:'int | float'):
     return a ** n
 
 def pow_backward(grad:np.ndarray, a:np.ndarray, n:'int | float'):
+    if n == 0:
+        # a ** 0 is constant: zero gradient (0 * a**-1 would be nan where a == 0)
+        return np.zeros_like(a) * grad
     return n * (a ** (n - 1)) * grad
 
 
